@@ -128,6 +128,23 @@ chk("C14", "translation_validation",
     "Program family (documented, single predicates, skeletons, deep, splitter family); black executed natively.",
     "relational symbolic execution (pysym) + z3", "DESIGN.md section 6 C14")
 
+chk("C05", "translation_validation",
+    "Four stage lemmas: lexer token values (pysym on the token functions + LX-ACCEPT), pydantic-v1 union validation with "
+    "member order/smart_union read from the live classes and a symbolic literal (z3 strings/FP), the real code generator "
+    "run symbolically with the literal symbolic (every occurrence a faithful repr/str rendering or a solver query against "
+    "Python's literal syntax), and per example literal the compiled routing/returned value over all field values of both sorts.",
+    "pydantic acceptance is a model (validated on a corpus per run); repr/str round-trip is CPython's contract; example "
+    "literal list for the run stage; numerals <= 300 digits.",
+    "z3 strings/regex/FP on stage lemmas + symbolic execution (pysym) of generator and generated code", "DESIGN.md section 6 C05")
+
+chk("C13", "translation_validation",
+    "PythonCodeGen.generate() is executed symbolically on live ASTs with one string symbolic (7 positions x 2 layouts); the "
+    "returned text is decomposed and every raw occurrence of the symbolic string must be, for all contents, exactly one "
+    "Python string token (z3 regex query); repr()-rendered occurrences are faithful by contract. Adversarial corpus through "
+    "the real pipeline with constant-masked AST comparison as validation.",
+    "ASTs built without pydantic validation; structural model of Python string tokens; CPython repr contract.",
+    "symbolic execution (pysym) of the code generator + z3 regex membership", "DESIGN.md section 6 C13")
+
 NOT_APPLICABLE = {
     "C04": "statistical chi-square claim about MD5 output on concrete populations: not a forall-claim a solver can "
            "decide, and MD5's 64 rounds are a non-target; structural preconditions are decided under C09/C12",
